@@ -559,3 +559,67 @@ pub fn run_across_threads(tc: &dtr::TestCase, answer: &[(String, V)], on_first: 
     let _ = hooks::take_draw_log();
     lines
 }
+
+
+/// A driver whose error type is `std::io::Error` (as in the crate's own example): it answers every
+/// call with `answer` and fails once, at call number `fail_at`, with an error of kind `kind`.
+struct IoDriver<'a> {
+    outs: Vec<(&'a dtr::Signal, dtr::OutputValue)>,
+    fail_at: usize,
+    kind: std::io::ErrorKind,
+    calls: usize,
+}
+
+impl<'a> TestDriver for IoDriver<'a> {
+    type Error = std::io::Error;
+    fn write_input_and_read_output(&mut self, _inputs: &[dtr::InputEntry<'_>]) -> Result<Vec<dtr::OutputEntry<'_>>, std::io::Error> {
+        let n = self.calls;
+        self.calls += 1;
+        if n == self.fail_at {
+            return Err(std::io::Error::new(self.kind, "injected"));
+        }
+        Ok(self.outs.iter().map(|(s, v)| dtr::OutputEntry { signal: s, value: *v }).collect())
+    }
+}
+
+/// Run `tc` against an `io::Error` driver that fails once: one line per item ("row", "driver error
+/// <kind>", "error", "end") and the number of calls the driver saw after each.
+pub fn run_io_driver(tc: &dtr::TestCase, answer: &[(String, V)], fail_at: usize, kind: std::io::ErrorKind, max: usize) -> Vec<String> {
+    hooks::set_seed_override(Some(1));
+    let mut driver = IoDriver { outs: answer.iter().filter_map(|(n, v)| tc.signals.iter().find(|s| &s.name == n).map(|s| (s, v.to_output()))).collect(), fail_at, kind, calls: 0 };
+    let mut lines = vec![];
+    let r = guard(DEFAULT_BUDGET, || {
+        let mut out = vec![];
+        let mut it = match tc.try_iter(&mut driver) {
+            Ok(it) => it,
+            Err(dtr::errors::IterationError::Driver(e)) => {
+                out.push(format!("constructor: driver error {:?}", e.kind()));
+                return out;
+            }
+            Err(_) => {
+                out.push("constructor: error".to_string());
+                return out;
+            }
+        };
+        for _ in 0..max {
+            match it.next() {
+                None => {
+                    out.push("end".to_string());
+                    break;
+                }
+                Some(Ok(r)) => out.push(format!("row line {} outputs {}", r.line, r.outputs.len())),
+                Some(Err(dtr::errors::IterationError::Driver(e))) => out.push(format!("driver error {:?}", e.kind())),
+                Some(Err(_)) => out.push("error".to_string()),
+            }
+        }
+        out
+    });
+    match r {
+        Ok(v) => lines.extend(v),
+        Err(c) => lines.push(format!("{c:?}")),
+    }
+    lines.push(format!("calls: {}", driver.calls));
+    hooks::set_seed_override(None);
+    let _ = hooks::take_draw_log();
+    lines
+}
